@@ -540,7 +540,17 @@ def extract_fn(repo, blk, meta, mode):
                 log.append(('S', 'loop #%d absent: its invariant is not emitted' % n, src_line))
                 continue
             raise X.LostAnchor('%s::%s: loop #%d not found (%d loops)' % (rel, kv['name'], n, len(loops)))
-        add_insert(loops[n][1], lines, 'loopspec')
+        # an invariant line about a local of the function (`... //@if NAME`) is stated only while the function has that local: a local that has been
+        # removed takes the facts about it with it (the invariant talks about the code's temporaries only where an obligation of the code itself needs them)
+        body_idents = set(t.text for t in body if t.kind == 'ident')
+        kept = []
+        for ln, tl in lines:
+            mm = re.search(r'//@if\s+([A-Za-z_][A-Za-z0-9_]*)\s*$', ln)
+            if mm and mm.group(1) not in body_idents:
+                log.append(('S', 'invariant line about the local `%s` not emitted: the function has no such local' % mm.group(1), src_line))
+                continue
+            kept.append((re.sub(r'\s*//@if\s+[A-Za-z_][A-Za-z0-9_]*\s*$', '', ln), tl))
+        add_insert(loops[n][1], kept, 'loopspec')
     for anchor, wherepos, nth, lines in blk.ats:
         atoks = [t.text for t in lex(anchor) if t.kind not in ('ws', 'comment')]
         hits = []
